@@ -485,6 +485,41 @@ KNOWN_REPRO = {"flags": {"persistent": True, "always": True, "wait": 1, "addr": 
                "events": [["ADV", 9], ["INBOUND"], ["DPR_CLOSE"], ["ADV", 8]]}
 
 
+def dpr_then_fin(rec, direction):
+    """Known finding (dedicated reproduction; the generated histories close a connection only after its DPR has been
+    handled): the peer's DPR and its FIN reach the node in the same instant.  The I/O thread reads the DPR, hands it
+    to the read thread, reads the end of the stream and closes the connection before the read thread has looked at
+    the DPR, which is then dropped ("connection has been closed, ignoring received message")."""
+    w = W.NodeWorld({"peers": [{"name": "peer1.example", "ip": ["10.1.1.1"], "persistent": True, "reconnect_wait": 2}],
+                     "apps": [{"app_id": 4, "auth": True, "peers": [0], "handler": "answer"}],
+                     "node_timers": {"idle": 1000, "dwa": 10, "cer": 30, "cea": 30, "wakeup": 1},
+                     "default_dial": "ok" if direction == "out" else "inprogress"})
+    case = {"dpr_then_fin": direction}
+    try:
+        pm = w.mods["peer"]
+        w.start()
+        if direction == "out":
+            c = w.conns[0]
+            w.answer_cer(c, 2001, auth=(4,), host="peer1.example")
+        else:
+            w.connect_result(w.conns[0], False)                   # the node's own dial fails; the peer connects instead
+            c = w.handshake_in("peer1.example", auth=[4], ip="10.1.1.1", hbh=0x100)
+        dials0 = len(w.net.connect_calls)
+        w.feed_msg(c, {"k": "DPR", "host": "peer1.example", "hbh": 0x180, "e2e": 0x180}, run=False)
+        w.peer_close(c)
+        peer = w.node.peers["peer1.example"]
+        reason = peer.disconnect_reason
+        w.advance(6)
+        redials = len(w.net.connect_calls) - dials0
+        if reason != pm.DISCONNECT_REASON_DPR or redials:
+            rec.violation("C12/dpr-then-fin/dpr-dropped", case,
+                          f"DPR and FIN in one instant ({direction}): disconnect_reason {reason} (DPR is {pm.DISCONNECT_REASON_DPR}), "
+                          f"{redials} redial(s) of the persistent, not always-reconnect peer within 6 s")
+        rec.case(None, ["known-finding-reproduction", "dpr-then-fin"], sample=lambda: dict(case, reason=reason, redials=redials))
+    finally:
+        w.close()
+
+
 def shard_main(shard, nshards, tier, scale):
     rec = Recorder(PID)
     schedule_part(rec, shard, nshards, tier == "thorough")
@@ -492,6 +527,8 @@ def shard_main(shard, nshards, tier, scale):
         r = evaluate(KNOWN_REPRO)
         r.classes.append("known-finding-reproduction")
         record(rec, KNOWN_REPRO, r)
+        for direction in ("out", "in"):
+            dpr_then_fin(rec, direction)
     thorough = tier == "thorough"
     shrunk = set()
     n = int((8000 if thorough else 600) * scale)
